@@ -563,13 +563,13 @@ fn replay(timeout_ms: u64, ticks: u64, threads: usize) {
     let results = pool(jobs, threads, move |j: &ReplayJob| {
         let mut o = run_case(&j.case, &st);
         let mut r = judge(j, &o);
-        // a mismatch in a behaviour whose outcome depends on timing is re-run alone-ish with the clock slowed
-        // down three times (a verdict must never depend on this machine being fast enough)
+        // an unexplained mismatch is re-run (a behaviour whose outcome depends on timing with the clock slowed down
+        // three times): a verdict must never depend on this machine being fast enough, only persistent ones count
         let timed = j.v["ev"].as_array().map(|a| a.iter().any(|e| e["t"].as_u64().unwrap_or(0) > 0)).unwrap_or(false);
         let mut tries = 0;
-        while r["ok"] == false && r["devs"].is_null() && timed && j.case.entry == "core" && tries < 2 {
+        while r["ok"] == false && r["devs"].is_null() && tries < 2 {
             tries += 1;
-            let slow = Case { timeout_ms: j.case.timeout_ms * 3, events: j.case.events.clone(), entry: j.case.entry.clone(),
+            let slow = Case { timeout_ms: if timed { j.case.timeout_ms * 3 } else { j.case.timeout_ms }, events: j.case.events.clone(), entry: j.case.entry.clone(),
                               req: j.case.req.clone(), route: j.case.route.clone(), connected: j.case.connected, ticks: j.case.ticks };
             o = run_case(&slow, &st);
             r = judge(j, &o);
@@ -708,7 +708,13 @@ fn cuts(timeout_ms: u64, threads: usize, stall_mod: usize, nseeds: usize) {
     }
     let st = state.clone();
     let results = pool(jobs, threads, move |j: &CutJob| {
-        let o = run_case(&j.case, &st);
+        let mut o = run_case(&j.case, &st);
+        let mut tries = 0;
+        // lateness that is not a hang is re-measured (machine load must not become a verdict)
+        while o.late && o.got["kind"] != "hang" && tries < 2 {
+            tries += 1;
+            o = run_case(&j.case, &st);
+        }
         trace_record(&json!(j.id), &j.case, &j.segs, &j.term, &o)
     });
     for r in results {
